@@ -1,6 +1,7 @@
 /-
   C04 — Every analytic gradient is the derivative of the value it accompanies.
-  Property theorems only (helpers: Proofs/C04Radial, C04Lists, C04Kernel, C04Chain, C04Gauss, C04Jacobi, C04Symm).
+  Property theorems only (helpers: Proofs/C04Radial, C04Lists, C04Kernel, C04Chain, C04Gauss, C04Jacobi, C04Symm,
+  C04Compose; section 9 also uses Properties/C02 and, through it, Properties/C03).
 
   All statements are over ℝ (the `Arith ℝ` instance of the SAME definitions the driver runs on `Float`):
   Model/Kernels.lean (values) and Model/C04.lean (gradients).  "Along coordinate j" is expressed with
@@ -21,6 +22,9 @@ import Proofs.C04Gauss
 import Proofs.C04Mills
 import Proofs.C04Jacobi
 import Proofs.C04Symm
+import Proofs.C04Compose
+import Proofs.C04Cholesky
+import Properties.C02
 
 namespace C04
 open Kernels
@@ -581,12 +585,26 @@ open scoped Matrix
         column rank                                                                  `loglik_grad_hyp_of_posDef`
       * one observation, written with scalars (kept from before)                     `loglik_grad_partial`
       * the log-domain factor                                                        `log_domain_chain`
+      * (section 9) the abstract family instantiated: for every radial kernel, `build_kernel_hparam_grad_tensor`
+        slice by slice IS the entry-wise derivative `K'` of `build_kernel_matrix(X, noise)` for the whole matrix at once
+        (process variance, each length scale, and the nugget `K + t·I` with `K' = I`), the matrix is positive definite
+        for noise > 0 (C02 / C03), and so the matrix-form statements hold for the CONCRETE kernel family with no
+        hypothesis left but the parameter ranges and full column rank of `P`
+                        `kernel_matrix_grad_alpha/_length/_nugget`, `kernel_matrix_posDef`, `loglik_grad_radial_*`
+      * (section 9) every positive definite matrix HAS a Cholesky factor `cholFactor K` (lower triangular, positive
+        diagonal), so the Cholesky hypothesis `hchol` of the list-model statements follows from positive definiteness
+        near θ                  `loglik_grad_cholesky_exists`, `loglik_grad_zero_mean_posDef`, `loglik_grad_poly_mean_posDef`,
+                                `loglik_grad_poly_mean_log_posDef`
+        and the list-model statements (linear and log domain, GLS polynomial mean) hold for the concrete kernel family
+                                `loglik_grad_radial_alpha_model(_log)`, `…_length_model(_log)`, `…_nugget_model(_log)`
+      * (section 9) the same composition for the MULTITASK tensor kernel, matrix forms (process variance, each physical
+        length scale, the task length scale, nugget)      `multitask_matrix_*`, `loglik_grad_multitask_*(_poly_mean)`;
+        its list-model forms are `loglik_grad_poly_mean_posDef` / `…_log_posDef` applied to `multitask_matrix_grad_*` and
+        `multitask_matrix_posDef` (not written out one by one)
 
     NOT PROVED here (remains a numerical comparison, model vs library vs finite differences, on every run):
       * that the library's `K_inv_demeaned_y`, `K_chol`, `cho_solve(K_chol, dK)` ARE the exact `a`, `L`, `K⁻¹dK`
         (floating-point Cholesky / triangular solves; conditioning enters the tolerance);
-      * that `build_kernel_hparam_grad_tensor` is the entry-wise derivative `K'` of `build_kernel_matrix` for the whole
-        matrix at once — entry by entry this is `kernel_hparam_grad` (section 2) plus the noise / auto-noise diagonal;
       * the floating-point model of the gradient (`Float` instance) — only the ℝ instance is differentiated. -/
 
 /-- **Jacobi's formula**, every n: `d det K = tr(adj(K)·dK)` -/
@@ -726,6 +744,637 @@ theorem loglik_grad_hyp_of_posDef {n p : ℕ} {K : Matrix (Fin n) (Fin n) ℝ} (
   gls_hyp_of_posDef hK P hP
 
 end LogLikMatrix
+
+/-! ## 9. Composition: the concrete kernel family -/
+
+section Compose
+open scoped Matrix
+
+/-  Sections 1 and 8 composed with C02 / C03, for every radial kernel of the library, every number n of observed
+    points, every dimension d.
+
+    `radialNoisy k alpha l x ν`  (Proofs/C04Compose.lean) is the matrix `K(X,X) + diag ν` over `Fin n`:
+        entry (i, j) = `kernel k alpha l (x i) (x j) + (if i = j then ν i else 0)`;
+    `radialHparamGrad k alpha l x h` is the matrix of the entries `h` of the model's hyperparameter-gradient rows
+        `gradKernelH k alpha l (x i) (x j)`  (h = 0: process variance; h = c + 1: length scale c).
+    `kernel_matrix_model_eq` ties both to the list model: they are `gramNoise` (= `build_kernel_matrix` with noise) and
+    slice h of `hparamTensor` (= `build_kernel_hparam_grad_tensor`).
+
+    One hyperparameter moves, the others are fixed:
+      * process variance   t ↦ radialNoisy k t l x ν                         K' = radialHparamGrad k θ l x 0
+      * length scale c     t ↦ radialNoisy k alpha (update l c t) x ν        K' = radialHparamGrad k alpha (update l c θ) x (c+1)
+      * nugget             t ↦ radialNoisy k alpha l x (ν + t) = K + t·I      K' = 1
+    For each: `hK` (entry-wise derivative of the WHOLE matrix, `kernel_matrix_grad_*`), positive definiteness of the
+    matrix at θ (`kernel_matrix_posDef`, from C03 `radial_gram_posSemidef` through C02
+    `radial_noisy_posDef_of_noise_pos`), hence `0 < det`, symmetry and `det PᵀK⁻¹P ≠ 0` (`kernel_matrix_hyp`), hence the
+    log-likelihood gradient statements `loglik_grad_radial_*` with NO hypothesis left except the parameter ranges
+    (process variance ≥ 0, moving length scale ≠ 0, noise > 0) and full column rank of `P`.
+    Order of the section: the radial matrix forms; the radial list-model forms (`…_model`, `…_model_log`: the model's
+    `loglik` / `loglikGrad` on lists, the value computed from the diagonal of the Cholesky factor `cholFactor (K t)`,
+    which exists because `K t` is positive definite); the multitask tensor kernel (`multitaskNoisy`,
+    `multitaskHparamGrad`, a point being `physical coordinates ++ [task]`), matrix forms. -/
+
+/-- **the two matrices are the list model's**: `build_kernel_matrix(X, noise_variance = ν)` has the entries of
+    `radialNoisy`, and slice `h` of `build_kernel_hparam_grad_tensor(X)` is `radialHparamGrad … h` written as a list of
+    rows (the form `loglikGrad` consumes in `loglik_grad_zero_mean`). -/
+theorem kernel_matrix_model_eq (k : Kind) {n d : ℕ} (alpha : ℝ) (l : Fin d → ℝ) (x : Fin n → Fin d → ℝ)
+    (ν : Fin n → ℝ) (h : ℕ) :
+    (∀ i j : Fin n,
+      C03.entry (gramNoise k alpha (List.ofFn l) (List.ofFn fun i => List.ofFn (x i)) (List.ofFn ν)) i j
+        = some (radialNoisy k alpha l x ν i j)) ∧
+    (hparamTensor k alpha (List.ofFn l) (List.ofFn fun i => List.ofFn (x i))).map
+        (fun row => row.map fun g => g.getD h 0)
+      = ofFnM (radialHparamGrad k alpha l x h) := by
+  constructor
+  · intro i j
+    rw [C03.gramNoise_eq_matrix, radialNoisy_eq_noisy]
+    rfl
+  · rw [(hparam_entrypoints_agree k alpha (List.ofFn l) (List.ofFn fun i => List.ofFn (x i)) [] (by simp)).2.1]
+    simp only [List.map_ofFn, ofFnM]
+    congr 1
+    funext i
+    simp only [Function.comp_apply, List.map_ofFn]
+    rfl
+
+/-- **positive definite**: `K(X,X) + diag ν` for `alpha ≥ 0`, `ν > 0`, whatever the points and length scales -/
+theorem kernel_matrix_posDef (k : Kind) {n d : ℕ} {alpha : ℝ} (ha : 0 ≤ alpha) (l : Fin d → ℝ)
+    (x : Fin n → Fin d → ℝ) {ν : Fin n → ℝ} (hν : ∀ i, 0 < ν i) : (radialNoisy k alpha l x ν).PosDef := by
+  rw [radialNoisy_eq_noisy]
+  exact C02.radial_noisy_posDef_of_noise_pos k ha l x hν
+
+/-- … hence every hypothesis of section 8 -/
+theorem kernel_matrix_hyp (k : Kind) {n d p : ℕ} {alpha : ℝ} (ha : 0 ≤ alpha) (l : Fin d → ℝ)
+    (x : Fin n → Fin d → ℝ) {ν : Fin n → ℝ} (hν : ∀ i, 0 < ν i) (P : Matrix (Fin n) (Fin p) ℝ)
+    (hP : Function.Injective P.mulVec) :
+    0 < (radialNoisy k alpha l x ν).det ∧ (radialNoisy k alpha l x ν).IsSymm ∧
+      (Pᵀ * (radialNoisy k alpha l x ν)⁻¹ * P).det ≠ 0 :=
+  loglik_grad_hyp_of_posDef (kernel_matrix_posDef k ha l x hν) P hP
+
+/-- **whole matrix, process variance**: slice 0 of the hyperparameter-gradient tensor is the entry-wise derivative of
+    `alpha ↦ K + diag ν` (every kernel kind, C0 included: the entry is linear in alpha) -/
+theorem kernel_matrix_grad_alpha (k : Kind) {n d : ℕ} (l : Fin d → ℝ) (x : Fin n → Fin d → ℝ) (ν : Fin n → ℝ)
+    (θ : ℝ) (i j : Fin n) :
+    HasDerivAt (fun t => radialNoisy k t l x ν i j) (radialHparamGrad k θ l x 0 i j) θ :=
+  radialNoisy_alpha_hasDerivAt k l x ν θ i j
+
+/-- **whole matrix, length scale c**: slice c + 1 of the tensor is the entry-wise derivative of `l c ↦ K + diag ν` -/
+theorem kernel_matrix_grad_length (k : Kind) (hk : differentiable k = true) {n d : ℕ} (alpha : ℝ) (l : Fin d → ℝ)
+    (x : Fin n → Fin d → ℝ) (ν : Fin n → ℝ) (c : Fin d) {θ : ℝ} (hθ : θ ≠ 0) (i j : Fin n) :
+    HasDerivAt (fun t => radialNoisy k alpha (Function.update l c t) x ν i j)
+      (radialHparamGrad k alpha (Function.update l c θ) x (c.val + 1) i j) θ :=
+  radialNoisy_length_hasDerivAt k hk alpha l x ν c θ hθ i j
+
+/-- **whole matrix, nugget**: `t ↦ K + diag ν + t·I` has entry-wise derivative `I` -/
+theorem kernel_matrix_grad_nugget (k : Kind) {n d : ℕ} (alpha : ℝ) (l : Fin d → ℝ) (x : Fin n → Fin d → ℝ)
+    (ν : Fin n → ℝ) (θ : ℝ) :
+    (∀ t, radialNoisy k alpha l x (fun a => ν a + t)
+      = radialNoisy k alpha l x ν + t • (1 : Matrix (Fin n) (Fin n) ℝ)) ∧
+    ∀ i j : Fin n, HasDerivAt (fun t => radialNoisy k alpha l x (fun a => ν a + t) i j)
+      ((1 : Matrix (Fin n) (Fin n) ℝ) i j) θ :=
+  ⟨radialNoisy_nugget_eq k alpha l x ν, radialNoisy_nugget_hasDerivAt k alpha l x ν θ⟩
+
+/-- **loglik_grad_radial_alpha, zero mean**: for the concrete kernel matrix `K(alpha) = K(X,X) + diag ν`,
+    `−s(rᵀK⁻¹r + log det K)` has derivative `−s(−aᵀ K' a + tr(K⁻¹ K'))` in the process variance, `K'` slice 0 of the
+    hyperparameter-gradient tensor, at every `θ ≥ 0` (so at every legal process variance `θ > 0`). -/
+theorem loglik_grad_radial_alpha (k : Kind) {n d : ℕ} (l : Fin d → ℝ) (x : Fin n → Fin d → ℝ) {ν : Fin n → ℝ}
+    (hν : ∀ i, 0 < ν i) {θ : ℝ} (hθ : 0 ≤ θ) (s : ℝ) (r : Fin n → ℝ) :
+    HasDerivAt
+      (fun t => -s * (r ⬝ᵥ ((radialNoisy k t l x ν)⁻¹ *ᵥ r) + Real.log (radialNoisy k t l x ν).det))
+      (-s * (-(((radialNoisy k θ l x ν)⁻¹ *ᵥ r) ⬝ᵥ
+            (radialHparamGrad k θ l x 0 *ᵥ ((radialNoisy k θ l x ν)⁻¹ *ᵥ r)))
+        + Matrix.trace ((radialNoisy k θ l x ν)⁻¹ * radialHparamGrad k θ l x 0))) θ :=
+  have hpd := kernel_matrix_posDef k hθ l x hν
+  loglik_grad_matrix (K := fun t => radialNoisy k t l x ν) (kernel_matrix_grad_alpha k l x ν θ)
+    hpd.det_pos (isSymm_of_posDef hpd) s r
+
+/-- **loglik_grad_radial_alpha, polynomial (GLS) mean**, `P` of full column rank -/
+theorem loglik_grad_radial_alpha_poly_mean (k : Kind) {n d p : ℕ} (l : Fin d → ℝ) (x : Fin n → Fin d → ℝ)
+    {ν : Fin n → ℝ} (hν : ∀ i, 0 < ν i) {θ : ℝ} (hθ : 0 ≤ θ) (P : Matrix (Fin n) (Fin p) ℝ)
+    (hP : Function.Injective P.mulVec) (s : ℝ) (y : Fin n → ℝ) :
+    HasDerivAt
+      (fun t => -s * (glsResidual P (radialNoisy k t l x ν) y ⬝ᵥ
+          ((radialNoisy k t l x ν)⁻¹ *ᵥ glsResidual P (radialNoisy k t l x ν) y)
+        + Real.log (radialNoisy k t l x ν).det))
+      (-s * (-(((radialNoisy k θ l x ν)⁻¹ *ᵥ glsResidual P (radialNoisy k θ l x ν) y) ⬝ᵥ
+            (radialHparamGrad k θ l x 0 *ᵥ ((radialNoisy k θ l x ν)⁻¹ *ᵥ glsResidual P (radialNoisy k θ l x ν) y)))
+        + Matrix.trace ((radialNoisy k θ l x ν)⁻¹ * radialHparamGrad k θ l x 0))) θ :=
+  have h := kernel_matrix_hyp k hθ l x hν P hP
+  loglik_grad_poly_mean_matrix (K := fun t => radialNoisy k t l x ν) (kernel_matrix_grad_alpha k l x ν θ)
+    h.1 h.2.1 P h.2.2 s y
+
+/-- non-vacuity of `loglik_grad_radial_alpha`: square-exponential kernel, length scale 1, points 0 and 1 on the line,
+    noise 1/10: `K(t) = [[t + 1/10, t e^{-1/2}], [t e^{-1/2}, t + 1/10]]`, `K' = [[1, e^{-1/2}], [e^{-1/2}, 1]]`, at θ = 2 -/
+example (s : ℝ) (r : Fin 2 → ℝ) :
+    let K : ℝ → Matrix (Fin 2) (Fin 2) ℝ := fun t =>
+      !![t + 1 / 10, t * Real.exp (-(1 / 2)); t * Real.exp (-(1 / 2)), t + 1 / 10]
+    let K' : Matrix (Fin 2) (Fin 2) ℝ := !![1, Real.exp (-(1 / 2)); Real.exp (-(1 / 2)), 1]
+    HasDerivAt (fun t => -s * (r ⬝ᵥ ((K t)⁻¹ *ᵥ r) + Real.log (K t).det))
+      (-s * (-(((K 2)⁻¹ *ᵥ r) ⬝ᵥ (K' *ᵥ ((K 2)⁻¹ *ᵥ r))) + Matrix.trace ((K 2)⁻¹ * K'))) 2 := by
+  intro K K'
+  have hK : ∀ t, radialNoisy Kind.se t ![(1 : ℝ)] ![![0], ![1]] (fun _ => 1 / 10) = K t := by
+    intro t
+    ext i j
+    fin_cases i <;> fin_cases j <;> simp [K, radialNoisy, kernel, phi, r2, two]
+  have hK' : radialHparamGrad Kind.se 2 ![(1 : ℝ)] ![![0], ![1]] 0 = K' := by
+    ext i j
+    fin_cases i <;> fin_cases j <;> simp [K', radialHparamGrad, gradKernelH, hparamRowWith, phi, r2, two]
+  have h := loglik_grad_radial_alpha Kind.se ![(1 : ℝ)] ![![0], ![1]] (ν := fun _ => 1 / 10)
+    (fun _ => by norm_num) (θ := 2) (by norm_num) s r
+  simpa only [hK, hK'] using h
+
+/-- **loglik_grad_radial_length, zero mean**: the same for length scale `c` moving (`Function.update l c t`), `K'`
+    slice `c + 1` of the hyperparameter-gradient tensor, at every `θ ≠ 0` (so at every legal length scale `θ > 0`),
+    process variance `alpha ≥ 0`. -/
+theorem loglik_grad_radial_length (k : Kind) (hk : differentiable k = true) {n d : ℕ} {alpha : ℝ} (ha : 0 ≤ alpha)
+    (l : Fin d → ℝ) (x : Fin n → Fin d → ℝ) {ν : Fin n → ℝ} (hν : ∀ i, 0 < ν i) (c : Fin d) {θ : ℝ} (hθ : θ ≠ 0)
+    (s : ℝ) (r : Fin n → ℝ) :
+    HasDerivAt
+      (fun t => -s * (r ⬝ᵥ ((radialNoisy k alpha (Function.update l c t) x ν)⁻¹ *ᵥ r)
+        + Real.log (radialNoisy k alpha (Function.update l c t) x ν).det))
+      (-s * (-(((radialNoisy k alpha (Function.update l c θ) x ν)⁻¹ *ᵥ r) ⬝ᵥ
+            (radialHparamGrad k alpha (Function.update l c θ) x (c.val + 1) *ᵥ
+              ((radialNoisy k alpha (Function.update l c θ) x ν)⁻¹ *ᵥ r)))
+        + Matrix.trace ((radialNoisy k alpha (Function.update l c θ) x ν)⁻¹ *
+            radialHparamGrad k alpha (Function.update l c θ) x (c.val + 1)))) θ :=
+  have hpd := kernel_matrix_posDef k ha (Function.update l c θ) x hν
+  loglik_grad_matrix (K := fun t => radialNoisy k alpha (Function.update l c t) x ν)
+    (kernel_matrix_grad_length k hk alpha l x ν c hθ) hpd.det_pos (isSymm_of_posDef hpd) s r
+
+/-- non-vacuity of `loglik_grad_radial_length`: square-exponential kernel, process variance 1, points 0 and 1 on the
+    line, noise 1/10, the single length scale moving: `K(t) = [[11/10, e^{-(1/t)²/2}], [e^{-(1/t)²/2}, 11/10]]`,
+    `K' = [[0, e^{-1/2}], [e^{-1/2}, 0]]` (`= e^{-r²/2}·diff²/l³` at `l = 1`), at θ = 1 -/
+example (s : ℝ) (r : Fin 2 → ℝ) :
+    let K : ℝ → Matrix (Fin 2) (Fin 2) ℝ := fun t =>
+      !![1 + 1 / 10, Real.exp (-((1 / t) ^ 2 / 2)); Real.exp (-((1 / t) ^ 2 / 2)), 1 + 1 / 10]
+    let K' : Matrix (Fin 2) (Fin 2) ℝ := !![0, Real.exp (-(1 / 2)); Real.exp (-(1 / 2)), 0]
+    HasDerivAt (fun t => -s * (r ⬝ᵥ ((K t)⁻¹ *ᵥ r) + Real.log (K t).det))
+      (-s * (-(((K 1)⁻¹ *ᵥ r) ⬝ᵥ (K' *ᵥ ((K 1)⁻¹ *ᵥ r))) + Matrix.trace ((K 1)⁻¹ * K'))) 1 := by
+  intro K K'
+  have hu : ∀ t : ℝ, Function.update ![(7 : ℝ)] 0 t = ![t] := by
+    intro t; ext i; fin_cases i; simp
+  have hK : ∀ t, radialNoisy Kind.se 1 (Function.update ![(7 : ℝ)] 0 t) ![![0], ![1]] (fun _ => 1 / 10) = K t := by
+    intro t
+    rw [hu]
+    ext i j
+    fin_cases i <;> fin_cases j <;> simp [K, radialNoisy, kernel, phi, r2, two] <;> ring
+  have hK' : radialHparamGrad Kind.se 1 (Function.update ![(7 : ℝ)] 0 1) ![![0], ![1]] ((0 : Fin 1).val + 1)
+      = K' := by
+    rw [hu]
+    ext i j
+    fin_cases i <;> fin_cases j <;>
+      simp [K', radialHparamGrad, gradKernelH, hparamRowWith, hparamCoords, scaleBy, hphi, phi, r2, two]
+  have h := loglik_grad_radial_length Kind.se rfl (alpha := 1) zero_le_one ![(7 : ℝ)] ![![0], ![1]]
+    (ν := fun _ => 1 / 10) (fun _ => by norm_num) 0 (θ := 1) one_ne_zero s r
+  simpa only [hK, hK'] using h
+
+/-- **loglik_grad_radial_length, polynomial (GLS) mean**, `P` of full column rank -/
+theorem loglik_grad_radial_length_poly_mean (k : Kind) (hk : differentiable k = true) {n d p : ℕ} {alpha : ℝ}
+    (ha : 0 ≤ alpha) (l : Fin d → ℝ) (x : Fin n → Fin d → ℝ) {ν : Fin n → ℝ} (hν : ∀ i, 0 < ν i) (c : Fin d)
+    {θ : ℝ} (hθ : θ ≠ 0) (P : Matrix (Fin n) (Fin p) ℝ) (hP : Function.Injective P.mulVec) (s : ℝ)
+    (y : Fin n → ℝ) :
+    HasDerivAt
+      (fun t => -s * (glsResidual P (radialNoisy k alpha (Function.update l c t) x ν) y ⬝ᵥ
+          ((radialNoisy k alpha (Function.update l c t) x ν)⁻¹ *ᵥ
+            glsResidual P (radialNoisy k alpha (Function.update l c t) x ν) y)
+        + Real.log (radialNoisy k alpha (Function.update l c t) x ν).det))
+      (-s * (-(((radialNoisy k alpha (Function.update l c θ) x ν)⁻¹ *ᵥ
+              glsResidual P (radialNoisy k alpha (Function.update l c θ) x ν) y) ⬝ᵥ
+            (radialHparamGrad k alpha (Function.update l c θ) x (c.val + 1) *ᵥ
+              ((radialNoisy k alpha (Function.update l c θ) x ν)⁻¹ *ᵥ
+                glsResidual P (radialNoisy k alpha (Function.update l c θ) x ν) y)))
+        + Matrix.trace ((radialNoisy k alpha (Function.update l c θ) x ν)⁻¹ *
+            radialHparamGrad k alpha (Function.update l c θ) x (c.val + 1)))) θ :=
+  have h := kernel_matrix_hyp k ha (Function.update l c θ) x hν P hP
+  loglik_grad_poly_mean_matrix (K := fun t => radialNoisy k alpha (Function.update l c t) x ν)
+    (kernel_matrix_grad_length k hk alpha l x ν c hθ) h.1 h.2.1 P h.2.2 s y
+
+/-- … read at the current hyperparameters: at `θ = l c` the family passes through `radialNoisy k alpha l x ν` itself
+    and `K'` is slice `c + 1` of the tensor at `l` (`Function.update l c (l c) = l`). -/
+theorem loglik_grad_radial_length_at (k : Kind) (hk : differentiable k = true) {n d p : ℕ} {alpha : ℝ}
+    (ha : 0 ≤ alpha) (l : Fin d → ℝ) (x : Fin n → Fin d → ℝ) {ν : Fin n → ℝ} (hν : ∀ i, 0 < ν i) (c : Fin d)
+    (hl : 0 < l c) (P : Matrix (Fin n) (Fin p) ℝ) (hP : Function.Injective P.mulVec) (s : ℝ) (y : Fin n → ℝ) :
+    HasDerivAt
+      (fun t => -s * (glsResidual P (radialNoisy k alpha (Function.update l c t) x ν) y ⬝ᵥ
+          ((radialNoisy k alpha (Function.update l c t) x ν)⁻¹ *ᵥ
+            glsResidual P (radialNoisy k alpha (Function.update l c t) x ν) y)
+        + Real.log (radialNoisy k alpha (Function.update l c t) x ν).det))
+      (-s * (-(((radialNoisy k alpha l x ν)⁻¹ *ᵥ glsResidual P (radialNoisy k alpha l x ν) y) ⬝ᵥ
+            (radialHparamGrad k alpha l x (c.val + 1) *ᵥ
+              ((radialNoisy k alpha l x ν)⁻¹ *ᵥ glsResidual P (radialNoisy k alpha l x ν) y)))
+        + Matrix.trace ((radialNoisy k alpha l x ν)⁻¹ * radialHparamGrad k alpha l x (c.val + 1)))) (l c) := by
+  have h := loglik_grad_radial_length_poly_mean k hk ha l x hν c hl.ne' P hP s y
+  rwa [Function.update_eq_self] at h
+
+/-- **loglik_grad_radial_nugget, zero mean**: a constant `t` added to the whole noise diagonal (`K + diag ν + t·I`,
+    the auto-noise / nugget direction), `K' = I`; at every θ with `ν i + θ > 0`. -/
+theorem loglik_grad_radial_nugget (k : Kind) {n d : ℕ} {alpha : ℝ} (ha : 0 ≤ alpha) (l : Fin d → ℝ)
+    (x : Fin n → Fin d → ℝ) (ν : Fin n → ℝ) {θ : ℝ} (hν : ∀ i, 0 < ν i + θ) (s : ℝ) (r : Fin n → ℝ) :
+    HasDerivAt
+      (fun t => -s * (r ⬝ᵥ ((radialNoisy k alpha l x (fun a => ν a + t))⁻¹ *ᵥ r)
+        + Real.log (radialNoisy k alpha l x (fun a => ν a + t)).det))
+      (-s * (-(((radialNoisy k alpha l x (fun a => ν a + θ))⁻¹ *ᵥ r) ⬝ᵥ
+            ((1 : Matrix (Fin n) (Fin n) ℝ) *ᵥ ((radialNoisy k alpha l x (fun a => ν a + θ))⁻¹ *ᵥ r)))
+        + Matrix.trace ((radialNoisy k alpha l x (fun a => ν a + θ))⁻¹ * (1 : Matrix (Fin n) (Fin n) ℝ)))) θ :=
+  have hpd := kernel_matrix_posDef k ha l x (ν := fun a => ν a + θ) hν
+  loglik_grad_matrix (K := fun t => radialNoisy k alpha l x (fun a => ν a + t))
+    (kernel_matrix_grad_nugget k alpha l x ν θ).2 hpd.det_pos (isSymm_of_posDef hpd) s r
+
+/-- **loglik_grad_radial_nugget, polynomial (GLS) mean** -/
+theorem loglik_grad_radial_nugget_poly_mean (k : Kind) {n d p : ℕ} {alpha : ℝ} (ha : 0 ≤ alpha) (l : Fin d → ℝ)
+    (x : Fin n → Fin d → ℝ) (ν : Fin n → ℝ) {θ : ℝ} (hν : ∀ i, 0 < ν i + θ) (P : Matrix (Fin n) (Fin p) ℝ)
+    (hP : Function.Injective P.mulVec) (s : ℝ) (y : Fin n → ℝ) :
+    HasDerivAt
+      (fun t => -s * (glsResidual P (radialNoisy k alpha l x (fun a => ν a + t)) y ⬝ᵥ
+          ((radialNoisy k alpha l x (fun a => ν a + t))⁻¹ *ᵥ
+            glsResidual P (radialNoisy k alpha l x (fun a => ν a + t)) y)
+        + Real.log (radialNoisy k alpha l x (fun a => ν a + t)).det))
+      (-s * (-(((radialNoisy k alpha l x (fun a => ν a + θ))⁻¹ *ᵥ
+              glsResidual P (radialNoisy k alpha l x (fun a => ν a + θ)) y) ⬝ᵥ
+            ((1 : Matrix (Fin n) (Fin n) ℝ) *ᵥ ((radialNoisy k alpha l x (fun a => ν a + θ))⁻¹ *ᵥ
+              glsResidual P (radialNoisy k alpha l x (fun a => ν a + θ)) y)))
+        + Matrix.trace ((radialNoisy k alpha l x (fun a => ν a + θ))⁻¹ * (1 : Matrix (Fin n) (Fin n) ℝ)))) θ :=
+  have h := kernel_matrix_hyp k ha l x (ν := fun a => ν a + θ) hν P hP
+  loglik_grad_poly_mean_matrix (K := fun t => radialNoisy k alpha l x (fun a => ν a + t))
+    (kernel_matrix_grad_nugget k alpha l x ν θ).2 h.1 h.2.1 P h.2.2 s y
+
+/-! ### the list-model forms without the Cholesky hypothesis -/
+
+/-- **the Cholesky factor exists**: every positive definite `K` is `L Lᵀ` with `L = cholFactor K` lower triangular
+    with positive diagonal (from Mathlib's LDL decomposition; Proofs/C04Cholesky.lean) -/
+theorem loglik_grad_cholesky_exists {n : ℕ} {K : Matrix (Fin n) (Fin n) ℝ} (hK : K.PosDef) :
+    K = cholFactor K * (cholFactor K)ᵀ ∧ (∀ i j, i < j → cholFactor K i j = 0) ∧ ∀ i, 0 < cholFactor K i i :=
+  cholFactor_spec hK
+
+/-- `loglik_grad_zero_mean` with `hchol` replaced by: `K t` is positive definite for `t` near `θ` -/
+theorem loglik_grad_zero_mean_posDef {n : ℕ} {K : ℝ → Matrix (Fin n) (Fin n) ℝ} {K' : Matrix (Fin n) (Fin n) ℝ}
+    {θ : ℝ} (hK : ∀ i j, HasDerivAt (fun t => K t i j) (K' i j) θ) (hpd : ∀ᶠ t in nhds θ, (K t).PosDef)
+    (s : ℝ) (r : Fin n → ℝ) :
+    HasDerivAt
+      (fun t => loglik s (List.ofFn r) (List.ofFn ((K t)⁻¹ *ᵥ r)) (List.ofFn fun i => cholFactor (K t) i i))
+      ((loglikGrad s (List.ofFn ((K θ)⁻¹ *ᵥ r)) (ofFnM (K θ)⁻¹) [ofFnM K'] [1]).getD 0 0) θ :=
+  loglik_grad_zero_mean hK (hpd.mono fun _ ht => cholFactor_spec ht) s r
+
+/-- `loglik_grad_poly_mean` with `hchol`, `hG` replaced by: `K t` positive definite near `θ`, `P` of full column rank -/
+theorem loglik_grad_poly_mean_posDef {n p : ℕ} {K : ℝ → Matrix (Fin n) (Fin n) ℝ}
+    {K' : Matrix (Fin n) (Fin n) ℝ} {θ : ℝ} (hK : ∀ i j, HasDerivAt (fun t => K t i j) (K' i j) θ)
+    (hpd : ∀ᶠ t in nhds θ, (K t).PosDef) (P : Matrix (Fin n) (Fin p) ℝ) (hP : Function.Injective P.mulVec)
+    (s : ℝ) (y : Fin n → ℝ) :
+    HasDerivAt
+      (fun t => loglik s (List.ofFn (glsResidual P (K t) y)) (List.ofFn ((K t)⁻¹ *ᵥ glsResidual P (K t) y))
+        (List.ofFn fun i => cholFactor (K t) i i))
+      ((loglikGrad s (List.ofFn ((K θ)⁻¹ *ᵥ glsResidual P (K θ) y)) (ofFnM (K θ)⁻¹) [ofFnM K'] [1]).getD 0 0) θ :=
+  loglik_grad_poly_mean hK (hpd.mono fun _ ht => cholFactor_spec ht) P
+    (loglik_grad_hyp_of_posDef hpd.self_of_nhds P hP).2.2 s y
+
+/-- `loglik_grad_poly_mean_log` likewise (log domain: the hyperparameter is `exp u`) -/
+theorem loglik_grad_poly_mean_log_posDef {n p : ℕ} {K : ℝ → Matrix (Fin n) (Fin n) ℝ}
+    {K' : Matrix (Fin n) (Fin n) ℝ} {u : ℝ} (hK : ∀ i j, HasDerivAt (fun t => K t i j) (K' i j) (Real.exp u))
+    (hpd : ∀ᶠ t in nhds (Real.exp u), (K t).PosDef) (P : Matrix (Fin n) (Fin p) ℝ)
+    (hP : Function.Injective P.mulVec) (s : ℝ) (y : Fin n → ℝ) :
+    HasDerivAt
+      (fun v => loglik s (List.ofFn (glsResidual P (K (Real.exp v)) y))
+        (List.ofFn ((K (Real.exp v))⁻¹ *ᵥ glsResidual P (K (Real.exp v)) y))
+        (List.ofFn fun i => cholFactor (K (Real.exp v)) i i))
+      ((loglikGrad s (List.ofFn ((K (Real.exp u))⁻¹ *ᵥ glsResidual P (K (Real.exp u)) y))
+        (ofFnM (K (Real.exp u))⁻¹) [ofFnM K'] [Real.exp u]).getD 0 0) u :=
+  loglik_grad_poly_mean_log hK (hpd.mono fun _ ht => cholFactor_spec ht) P
+    (loglik_grad_hyp_of_posDef hpd.self_of_nhds P hP).2.2 s y
+
+/-- the three concrete families are positive definite near every legal value of the moving hyperparameter -/
+theorem kernel_matrix_posDef_near (k : Kind) {n d : ℕ} (l : Fin d → ℝ) (x : Fin n → Fin d → ℝ) (ν : Fin n → ℝ) :
+    (∀ θ : ℝ, 0 < θ → (∀ i, 0 < ν i) → ∀ᶠ t in nhds θ, (radialNoisy k t l x ν).PosDef) ∧
+    (∀ (alpha : ℝ) (c : Fin d) (θ : ℝ), 0 ≤ alpha → (∀ i, 0 < ν i) →
+      ∀ᶠ t in nhds θ, (radialNoisy k alpha (Function.update l c t) x ν).PosDef) ∧
+    (∀ (alpha θ : ℝ), 0 ≤ alpha → (∀ i, 0 < ν i + θ) →
+      ∀ᶠ t in nhds θ, (radialNoisy k alpha l x (fun a => ν a + t)).PosDef) := by
+  refine ⟨fun θ hθ hν => ?_, fun alpha c θ ha hν => ?_, fun alpha θ ha hν => ?_⟩
+  · filter_upwards [eventually_gt_nhds hθ] with t ht
+    exact kernel_matrix_posDef k ht.le l x hν
+  · exact Filter.Eventually.of_forall fun t => kernel_matrix_posDef k ha _ x hν
+  · have h : ∀ᶠ t in nhds θ, ∀ i, 0 < ν i + t := by
+      rw [Filter.eventually_all]
+      intro i
+      have hi : -ν i < θ := by linarith [hν i]
+      filter_upwards [eventually_gt_nhds hi] with t ht
+      linarith
+    filter_upwards [h] with t ht
+    exact kernel_matrix_posDef k ha l x (ν := fun a => ν a + t) ht
+
+/-- **loglik_grad_radial_alpha in the model's own terms** (GLS polynomial mean): the list-encoded `loglikGrad` entry for
+    `dK` = slice 0 of the hyperparameter-gradient tensor is the derivative, in the process variance, of the list-encoded
+    `loglik` evaluated from the Cholesky diagonal of the concrete kernel matrix; every `θ > 0`, `ν > 0` -/
+theorem loglik_grad_radial_alpha_model (k : Kind) {n d p : ℕ} (l : Fin d → ℝ) (x : Fin n → Fin d → ℝ)
+    {ν : Fin n → ℝ} (hν : ∀ i, 0 < ν i) {θ : ℝ} (hθ : 0 < θ) (P : Matrix (Fin n) (Fin p) ℝ)
+    (hP : Function.Injective P.mulVec) (s : ℝ) (y : Fin n → ℝ) :
+    HasDerivAt
+      (fun t => loglik s (List.ofFn (glsResidual P (radialNoisy k t l x ν) y))
+        (List.ofFn ((radialNoisy k t l x ν)⁻¹ *ᵥ glsResidual P (radialNoisy k t l x ν) y))
+        (List.ofFn fun i => cholFactor (radialNoisy k t l x ν) i i))
+      ((loglikGrad s (List.ofFn ((radialNoisy k θ l x ν)⁻¹ *ᵥ glsResidual P (radialNoisy k θ l x ν) y))
+        (ofFnM (radialNoisy k θ l x ν)⁻¹) [ofFnM (radialHparamGrad k θ l x 0)] [1]).getD 0 0) θ :=
+  loglik_grad_poly_mean_posDef (K := fun t => radialNoisy k t l x ν) (kernel_matrix_grad_alpha k l x ν θ)
+    ((kernel_matrix_posDef_near k l x ν).1 θ hθ hν) P hP s y
+
+/-- … and in the log domain (`log_domain=True`): process variance `exp u`, entry scaled by `exp u`, derivative in `u` -/
+theorem loglik_grad_radial_alpha_model_log (k : Kind) {n d p : ℕ} (l : Fin d → ℝ) (x : Fin n → Fin d → ℝ)
+    {ν : Fin n → ℝ} (hν : ∀ i, 0 < ν i) (u : ℝ) (P : Matrix (Fin n) (Fin p) ℝ)
+    (hP : Function.Injective P.mulVec) (s : ℝ) (y : Fin n → ℝ) :
+    HasDerivAt
+      (fun v => loglik s (List.ofFn (glsResidual P (radialNoisy k (Real.exp v) l x ν) y))
+        (List.ofFn ((radialNoisy k (Real.exp v) l x ν)⁻¹ *ᵥ glsResidual P (radialNoisy k (Real.exp v) l x ν) y))
+        (List.ofFn fun i => cholFactor (radialNoisy k (Real.exp v) l x ν) i i))
+      ((loglikGrad s (List.ofFn ((radialNoisy k (Real.exp u) l x ν)⁻¹ *ᵥ glsResidual P (radialNoisy k (Real.exp u) l x ν) y))
+        (ofFnM (radialNoisy k (Real.exp u) l x ν)⁻¹) [ofFnM (radialHparamGrad k (Real.exp u) l x 0)] [Real.exp u]).getD 0 0) u :=
+  loglik_grad_poly_mean_log_posDef (K := fun t => radialNoisy k t l x ν) (kernel_matrix_grad_alpha k l x ν (Real.exp u))
+    ((kernel_matrix_posDef_near k l x ν).1 (Real.exp u) (Real.exp_pos u) hν) P hP s y
+
+/-- **loglik_grad_radial_length in the model's own terms** (GLS polynomial mean): length scale `c` moving, `dK` = slice
+    `c + 1` of the hyperparameter-gradient tensor; every `θ ≠ 0`, `alpha ≥ 0`, `ν > 0` -/
+theorem loglik_grad_radial_length_model (k : Kind) (hk : differentiable k = true) {n d p : ℕ} {alpha : ℝ}
+    (ha : 0 ≤ alpha) (l : Fin d → ℝ) (x : Fin n → Fin d → ℝ) {ν : Fin n → ℝ} (hν : ∀ i, 0 < ν i) (c : Fin d)
+    {θ : ℝ} (hθ : θ ≠ 0) (P : Matrix (Fin n) (Fin p) ℝ) (hP : Function.Injective P.mulVec) (s : ℝ)
+    (y : Fin n → ℝ) :
+    HasDerivAt
+      (fun t => loglik s (List.ofFn (glsResidual P (radialNoisy k alpha (Function.update l c t) x ν) y))
+        (List.ofFn ((radialNoisy k alpha (Function.update l c t) x ν)⁻¹ *ᵥ glsResidual P (radialNoisy k alpha (Function.update l c t) x ν) y))
+        (List.ofFn fun i => cholFactor (radialNoisy k alpha (Function.update l c t) x ν) i i))
+      ((loglikGrad s (List.ofFn ((radialNoisy k alpha (Function.update l c θ) x ν)⁻¹ *ᵥ glsResidual P (radialNoisy k alpha (Function.update l c θ) x ν) y))
+        (ofFnM (radialNoisy k alpha (Function.update l c θ) x ν)⁻¹) [ofFnM (radialHparamGrad k alpha (Function.update l c θ) x (c.val + 1))] [1]).getD 0 0) θ :=
+  loglik_grad_poly_mean_posDef (K := fun t => radialNoisy k alpha (Function.update l c t) x ν) (kernel_matrix_grad_length k hk alpha l x ν c hθ)
+    ((kernel_matrix_posDef_near k l x ν).2.1 alpha c θ ha hν) P hP s y
+
+/-- … and in the log domain: length scale `exp u` -/
+theorem loglik_grad_radial_length_model_log (k : Kind) (hk : differentiable k = true) {n d p : ℕ} {alpha : ℝ}
+    (ha : 0 ≤ alpha) (l : Fin d → ℝ) (x : Fin n → Fin d → ℝ) {ν : Fin n → ℝ} (hν : ∀ i, 0 < ν i) (c : Fin d)
+    (u : ℝ) (P : Matrix (Fin n) (Fin p) ℝ) (hP : Function.Injective P.mulVec) (s : ℝ) (y : Fin n → ℝ) :
+    HasDerivAt
+      (fun v => loglik s (List.ofFn (glsResidual P (radialNoisy k alpha (Function.update l c (Real.exp v)) x ν) y))
+        (List.ofFn ((radialNoisy k alpha (Function.update l c (Real.exp v)) x ν)⁻¹ *ᵥ glsResidual P (radialNoisy k alpha (Function.update l c (Real.exp v)) x ν) y))
+        (List.ofFn fun i => cholFactor (radialNoisy k alpha (Function.update l c (Real.exp v)) x ν) i i))
+      ((loglikGrad s (List.ofFn ((radialNoisy k alpha (Function.update l c (Real.exp u)) x ν)⁻¹ *ᵥ glsResidual P (radialNoisy k alpha (Function.update l c (Real.exp u)) x ν) y))
+        (ofFnM (radialNoisy k alpha (Function.update l c (Real.exp u)) x ν)⁻¹) [ofFnM (radialHparamGrad k alpha (Function.update l c (Real.exp u)) x (c.val + 1))] [Real.exp u]).getD 0 0) u :=
+  loglik_grad_poly_mean_log_posDef (K := fun t => radialNoisy k alpha (Function.update l c t) x ν) (kernel_matrix_grad_length k hk alpha l x ν c (Real.exp_pos u).ne')
+    ((kernel_matrix_posDef_near k l x ν).2.1 alpha c (Real.exp u) ha hν) P hP s y
+
+/-- **loglik_grad_radial_nugget in the model's own terms** (GLS polynomial mean): `K + diag ν + t·I`, `dK = I` -/
+theorem loglik_grad_radial_nugget_model (k : Kind) {n d p : ℕ} {alpha : ℝ} (ha : 0 ≤ alpha) (l : Fin d → ℝ)
+    (x : Fin n → Fin d → ℝ) (ν : Fin n → ℝ) {θ : ℝ} (hν : ∀ i, 0 < ν i + θ) (P : Matrix (Fin n) (Fin p) ℝ)
+    (hP : Function.Injective P.mulVec) (s : ℝ) (y : Fin n → ℝ) :
+    HasDerivAt
+      (fun t => loglik s (List.ofFn (glsResidual P (radialNoisy k alpha l x (fun a => ν a + t)) y))
+        (List.ofFn ((radialNoisy k alpha l x (fun a => ν a + t))⁻¹ *ᵥ glsResidual P (radialNoisy k alpha l x (fun a => ν a + t)) y))
+        (List.ofFn fun i => cholFactor (radialNoisy k alpha l x (fun a => ν a + t)) i i))
+      ((loglikGrad s (List.ofFn ((radialNoisy k alpha l x (fun a => ν a + θ))⁻¹ *ᵥ glsResidual P (radialNoisy k alpha l x (fun a => ν a + θ)) y))
+        (ofFnM (radialNoisy k alpha l x (fun a => ν a + θ))⁻¹) [ofFnM ((1 : Matrix (Fin n) (Fin n) ℝ))] [1]).getD 0 0) θ :=
+  loglik_grad_poly_mean_posDef (K := fun t => radialNoisy k alpha l x (fun a => ν a + t)) (kernel_matrix_grad_nugget k alpha l x ν θ).2
+    ((kernel_matrix_posDef_near k l x ν).2.2 alpha θ ha hν) P hP s y
+
+/-- … and in the log domain: nugget `exp u > 0`, so the per-point noise `ν` need only be `≥ 0` -/
+theorem loglik_grad_radial_nugget_model_log (k : Kind) {n d p : ℕ} {alpha : ℝ} (ha : 0 ≤ alpha) (l : Fin d → ℝ)
+    (x : Fin n → Fin d → ℝ) {ν : Fin n → ℝ} (hν : ∀ i, 0 ≤ ν i) (u : ℝ) (P : Matrix (Fin n) (Fin p) ℝ)
+    (hP : Function.Injective P.mulVec) (s : ℝ) (y : Fin n → ℝ) :
+    HasDerivAt
+      (fun v => loglik s (List.ofFn (glsResidual P (radialNoisy k alpha l x (fun a => ν a + (Real.exp v))) y))
+        (List.ofFn ((radialNoisy k alpha l x (fun a => ν a + (Real.exp v)))⁻¹ *ᵥ glsResidual P (radialNoisy k alpha l x (fun a => ν a + (Real.exp v))) y))
+        (List.ofFn fun i => cholFactor (radialNoisy k alpha l x (fun a => ν a + (Real.exp v))) i i))
+      ((loglikGrad s (List.ofFn ((radialNoisy k alpha l x (fun a => ν a + (Real.exp u)))⁻¹ *ᵥ glsResidual P (radialNoisy k alpha l x (fun a => ν a + (Real.exp u))) y))
+        (ofFnM (radialNoisy k alpha l x (fun a => ν a + (Real.exp u)))⁻¹) [ofFnM ((1 : Matrix (Fin n) (Fin n) ℝ))] [Real.exp u]).getD 0 0) u :=
+  loglik_grad_poly_mean_log_posDef (K := fun t => radialNoisy k alpha l x (fun a => ν a + t)) (kernel_matrix_grad_nugget k alpha l x ν (Real.exp u)).2
+    ((kernel_matrix_posDef_near k l x ν).2.2 alpha (Real.exp u) ha
+      fun i => add_pos_of_nonneg_of_pos (hν i) (Real.exp_pos u)) P hP s y
+
+/-! ### the multitask tensor kernel -/
+
+/-- `loglik_grad_matrix` / `loglik_grad_poly_mean_matrix` with their hypotheses replaced by: `K θ` positive definite,
+    `P` of full column rank -/
+theorem loglik_grad_matrix_posDef {n : ℕ} {K : ℝ → Matrix (Fin n) (Fin n) ℝ} {K' : Matrix (Fin n) (Fin n) ℝ} {θ : ℝ}
+    (hK : ∀ i j, HasDerivAt (fun t => K t i j) (K' i j) θ) (hpd : (K θ).PosDef) (s : ℝ) (r : Fin n → ℝ) :
+    HasDerivAt (fun t => -s * (r ⬝ᵥ ((K t)⁻¹ *ᵥ r) + Real.log (K t).det))
+      (-s * (-(((K θ)⁻¹ *ᵥ r) ⬝ᵥ (K' *ᵥ ((K θ)⁻¹ *ᵥ r))) + Matrix.trace ((K θ)⁻¹ * K'))) θ :=
+  loglik_grad_matrix hK hpd.det_pos (isSymm_of_posDef hpd) s r
+
+theorem loglik_grad_poly_mean_matrix_posDef {n p : ℕ} {K : ℝ → Matrix (Fin n) (Fin n) ℝ}
+    {K' : Matrix (Fin n) (Fin n) ℝ} {θ : ℝ} (hK : ∀ i j, HasDerivAt (fun t => K t i j) (K' i j) θ)
+    (hpd : (K θ).PosDef) (P : Matrix (Fin n) (Fin p) ℝ) (hP : Function.Injective P.mulVec) (s : ℝ)
+    (y : Fin n → ℝ) :
+    HasDerivAt
+      (fun t => -s * (glsResidual P (K t) y ⬝ᵥ ((K t)⁻¹ *ᵥ glsResidual P (K t) y) + Real.log (K t).det))
+      (-s * (-(((K θ)⁻¹ *ᵥ glsResidual P (K θ) y) ⬝ᵥ (K' *ᵥ ((K θ)⁻¹ *ᵥ glsResidual P (K θ) y)))
+        + Matrix.trace ((K θ)⁻¹ * K'))) θ :=
+  have h := loglik_grad_hyp_of_posDef hpd P hP
+  loglik_grad_poly_mean_matrix hK h.1 h.2.1 P h.2.2 s y
+
+/-- **the multitask matrices are the list model's**: `MultitaskTensorCovariance.build_kernel_matrix(X, noise)` has the
+    entries of `multitaskNoisy`; slice `h` of its `build_kernel_hparam_grad_tensor(X)` is `multitaskHparamGrad … h` -/
+theorem multitask_matrix_model_eq (kp kt : Kind) {n d : ℕ} (alpha : ℝ) (l : Fin d → ℝ) (lt : ℝ)
+    (x : Fin n → Fin d → ℝ) (τ : Fin n → ℝ) (ν : Fin n → ℝ) (h : ℕ) :
+    (∀ i j : Fin n,
+      C03.entry (multitaskGramNoise kp kt alpha (List.ofFn l) lt (List.ofFn fun i => List.ofFn (x i) ++ [τ i])
+        (List.ofFn ν)) i j = some (multitaskNoisy kp kt alpha l lt x τ ν i j)) ∧
+    (mtHparamTensor kp kt alpha (List.ofFn l) lt (List.ofFn fun i => List.ofFn (x i) ++ [τ i])).map
+        (fun row => row.map fun g => g.getD h 0)
+      = ofFnM (multitaskHparamGrad kp kt alpha l lt x τ h) := by
+  constructor
+  · intro i j
+    unfold multitaskGramNoise
+    rw [C03.addDiag_entry, C03.multitaskGram_entry _ _ _ _ _ _ _ _ (by simp) (by simp)]
+    by_cases hij : i = j
+    · subst hij; simp
+    · have : (i : ℕ) ≠ (j : ℕ) := fun e => hij (Fin.ext e)
+      simp [this, hij]
+  · unfold mtHparamTensor
+    simp only [List.map_ofFn, ofFnM]
+    congr 1
+    funext i
+    simp only [Function.comp_apply, List.map_ofFn]
+    congr 1
+    funext j
+    simp only [Function.comp_apply]
+    rw [(multitask_entrypoints_agree kp kt alpha (List.ofFn l) lt _ _ (by simp)).2.2.2.2.1]
+    rfl
+
+/-- positive definite for `alpha ≥ 0`, `ν > 0` (C03 `multitask_gram_posSemidef`: Schur product of the two Gram matrices) -/
+theorem multitask_matrix_posDef (kp kt : Kind) {n d : ℕ} {alpha : ℝ} (ha : 0 ≤ alpha) (l : Fin d → ℝ) (lt : ℝ)
+    (x : Fin n → Fin d → ℝ) (τ : Fin n → ℝ) {ν : Fin n → ℝ} (hν : ∀ i, 0 < ν i) :
+    (multitaskNoisy kp kt alpha l lt x τ ν).PosDef := by
+  rw [multitaskNoisy_eq_noisy]
+  exact C02.noisy_posDef_of_noise_pos (C03.multitask_gram_posSemidef kp kt ha l lt x τ) hν
+
+/-- whole matrix, process variance -/
+theorem multitask_matrix_grad_alpha (kp kt : Kind) {n d : ℕ} (l : Fin d → ℝ) (lt : ℝ) (x : Fin n → Fin d → ℝ)
+    (τ : Fin n → ℝ) (ν : Fin n → ℝ) (θ : ℝ) (i j : Fin n) :
+    HasDerivAt (fun t => multitaskNoisy kp kt t l lt x τ ν i j) (multitaskHparamGrad kp kt θ l lt x τ 0 i j) θ :=
+  (multitask_grad_alpha kp kt θ (List.ofFn l) lt _ _).add_const _
+
+/-- whole matrix, physical length scale `c` (hyperparameter index `c + 1`) -/
+theorem multitask_matrix_grad_length_phys (kp kt : Kind) (hk : differentiable kp = true) {n d : ℕ} (alpha : ℝ)
+    (l : Fin d → ℝ) (lt : ℝ) (x : Fin n → Fin d → ℝ) (τ : Fin n → ℝ) (ν : Fin n → ℝ) (c : Fin d) {θ : ℝ}
+    (hθ : θ ≠ 0) (i j : Fin n) :
+    HasDerivAt (fun t => multitaskNoisy kp kt alpha (Function.update l c t) lt x τ ν i j)
+      (multitaskHparamGrad kp kt alpha (Function.update l c θ) lt x τ (c.val + 1) i j) θ := by
+  simp only [multitaskNoisy_apply, multitaskHparamGrad_apply, ofFn_update]
+  exact (multitask_grad_l_phys kp kt hk alpha (List.ofFn l) lt (List.ofFn (x i)) (List.ofFn (x j)) (τ i) (τ j)
+    (by simp) (by simp) c.val (by simp) θ hθ).add_const _
+
+/-- whole matrix, task length scale (last hyperparameter, index `d + 1`) -/
+theorem multitask_matrix_grad_length_task (kp kt : Kind) (hk : differentiable kt = true) {n d : ℕ} (alpha : ℝ)
+    (l : Fin d → ℝ) (x : Fin n → Fin d → ℝ) (τ : Fin n → ℝ) (ν : Fin n → ℝ) {θ : ℝ} (hθ : θ ≠ 0) (i j : Fin n) :
+    HasDerivAt (fun t => multitaskNoisy kp kt alpha l t x τ ν i j)
+      (multitaskHparamGrad kp kt alpha l θ x τ (d + 1) i j) θ := by
+  have h := multitask_grad_l_task kp kt hk alpha (List.ofFn l) (List.ofFn (x i)) (List.ofFn (x j)) (τ i) (τ j)
+    (by simp) (by simp) θ hθ
+  rw [List.length_ofFn] at h
+  exact h.add_const _
+
+/-- whole matrix, nugget -/
+theorem multitask_matrix_grad_nugget (kp kt : Kind) {n d : ℕ} (alpha : ℝ) (l : Fin d → ℝ) (lt : ℝ)
+    (x : Fin n → Fin d → ℝ) (τ : Fin n → ℝ) (ν : Fin n → ℝ) (θ : ℝ) :
+    (∀ t, multitaskNoisy kp kt alpha l lt x τ (fun a => ν a + t)
+      = multitaskNoisy kp kt alpha l lt x τ ν + t • (1 : Matrix (Fin n) (Fin n) ℝ)) ∧
+    ∀ i j : Fin n, HasDerivAt (fun t => multitaskNoisy kp kt alpha l lt x τ (fun a => ν a + t) i j)
+      ((1 : Matrix (Fin n) (Fin n) ℝ) i j) θ :=
+  ⟨multitaskNoisy_nugget_eq kp kt alpha l lt x τ ν, multitaskNoisy_nugget_hasDerivAt kp kt alpha l lt x τ ν θ⟩
+
+/-- **loglik_grad_multitask_alpha**: the log-likelihood gradient in the process variance for the concrete multitask
+    kernel matrix, `K'` slice 0 of the multitask hyperparameter-gradient tensor; every `θ ≥ 0`, `ν > 0`, zero mean -/
+theorem loglik_grad_multitask_alpha (kp kt : Kind) {n d : ℕ} (l : Fin d → ℝ) (lt : ℝ) (x : Fin n → Fin d → ℝ)
+    (τ : Fin n → ℝ) {ν : Fin n → ℝ} (hν : ∀ i, 0 < ν i) {θ : ℝ} (hθ : 0 ≤ θ)
+    (s : ℝ) (r : Fin n → ℝ) :
+    HasDerivAt
+      (fun t => -s * (r ⬝ᵥ ((multitaskNoisy kp kt t l lt x τ ν)⁻¹ *ᵥ r)
+        + Real.log (multitaskNoisy kp kt t l lt x τ ν).det))
+      (-s * (-(((multitaskNoisy kp kt θ l lt x τ ν)⁻¹ *ᵥ r) ⬝ᵥ
+            (multitaskHparamGrad kp kt θ l lt x τ 0 *ᵥ ((multitaskNoisy kp kt θ l lt x τ ν)⁻¹ *ᵥ r)))
+        + Matrix.trace ((multitaskNoisy kp kt θ l lt x τ ν)⁻¹ * multitaskHparamGrad kp kt θ l lt x τ 0))) θ :=
+  loglik_grad_matrix_posDef (K := fun t => multitaskNoisy kp kt t l lt x τ ν)
+    (multitask_matrix_grad_alpha kp kt l lt x τ ν θ) (multitask_matrix_posDef kp kt hθ l lt x τ hν) s r
+
+/-- … GLS polynomial mean, `P` of full column rank -/
+theorem loglik_grad_multitask_alpha_poly_mean (kp kt : Kind) {n d p : ℕ} (l : Fin d → ℝ) (lt : ℝ) (x : Fin n → Fin d → ℝ)
+    (τ : Fin n → ℝ) {ν : Fin n → ℝ} (hν : ∀ i, 0 < ν i) {θ : ℝ} (hθ : 0 ≤ θ)
+    (P : Matrix (Fin n) (Fin p) ℝ) (hP : Function.Injective P.mulVec) (s : ℝ) (y : Fin n → ℝ) :
+    HasDerivAt
+      (fun t => -s * (glsResidual P (multitaskNoisy kp kt t l lt x τ ν) y ⬝ᵥ
+          ((multitaskNoisy kp kt t l lt x τ ν)⁻¹ *ᵥ glsResidual P (multitaskNoisy kp kt t l lt x τ ν) y)
+        + Real.log (multitaskNoisy kp kt t l lt x τ ν).det))
+      (-s * (-(((multitaskNoisy kp kt θ l lt x τ ν)⁻¹ *ᵥ glsResidual P (multitaskNoisy kp kt θ l lt x τ ν) y) ⬝ᵥ
+            (multitaskHparamGrad kp kt θ l lt x τ 0 *ᵥ ((multitaskNoisy kp kt θ l lt x τ ν)⁻¹ *ᵥ
+              glsResidual P (multitaskNoisy kp kt θ l lt x τ ν) y)))
+        + Matrix.trace ((multitaskNoisy kp kt θ l lt x τ ν)⁻¹ * multitaskHparamGrad kp kt θ l lt x τ 0))) θ :=
+  loglik_grad_poly_mean_matrix_posDef (K := fun t => multitaskNoisy kp kt t l lt x τ ν)
+    (multitask_matrix_grad_alpha kp kt l lt x τ ν θ) (multitask_matrix_posDef kp kt hθ l lt x τ hν) P hP s y
+
+/-- non-vacuity of `loglik_grad_multitask_alpha`: SE × SE tensor kernel, length scales 1, points (0; task 0) and
+    (1; task 1), noise 1/10: off-diagonal entry `t · e^{-1/2} · e^{-1/2}` -/
+example (s : ℝ) (r : Fin 2 → ℝ) :
+    let e : ℝ := Real.exp (-(1 / 2)) * Real.exp (-(1 / 2))
+    let K : ℝ → Matrix (Fin 2) (Fin 2) ℝ := fun t => !![t + 1 / 10, t * e; t * e, t + 1 / 10]
+    let K' : Matrix (Fin 2) (Fin 2) ℝ := !![1, e; e, 1]
+    HasDerivAt (fun t => -s * (r ⬝ᵥ ((K t)⁻¹ *ᵥ r) + Real.log (K t).det))
+      (-s * (-(((K 2)⁻¹ *ᵥ r) ⬝ᵥ (K' *ᵥ ((K 2)⁻¹ *ᵥ r))) + Matrix.trace ((K 2)⁻¹ * K'))) 2 := by
+  intro e K K'
+  have hK : ∀ t, multitaskNoisy Kind.se Kind.se t ![(1 : ℝ)] 1 ![![0], ![1]] ![0, 1] (fun _ => 1 / 10) = K t := by
+    intro t
+    ext i j
+    fin_cases i <;> fin_cases j <;>
+      simp [K, e, multitaskNoisy, multitask, physPart, taskPart, phi, r2, two]
+  have hK' : multitaskHparamGrad Kind.se Kind.se 2 ![(1 : ℝ)] 1 ![![0], ![1]] ![0, 1] 0 = K' := by
+    ext i j
+    fin_cases i <;> fin_cases j <;>
+      simp [K', e, multitaskHparamGrad, mtGradKernelH, mtHparamRowWith, physPart, taskPart, phi, r2, two]
+  have h := loglik_grad_multitask_alpha Kind.se Kind.se ![(1 : ℝ)] 1 ![![0], ![1]] ![0, 1] (ν := fun _ => 1 / 10)
+    (fun _ => by norm_num) (θ := 2) (by norm_num) s r
+  simpa only [hK, hK'] using h
+
+/-- **loglik_grad_multitask_length_phys**: physical length scale `c` moving, `K'` slice `c + 1`; every `θ ≠ 0`, zero mean -/
+theorem loglik_grad_multitask_length_phys (kp kt : Kind) (hk : differentiable kp = true) {n d : ℕ} {alpha : ℝ}
+    (ha : 0 ≤ alpha) (l : Fin d → ℝ) (lt : ℝ) (x : Fin n → Fin d → ℝ) (τ : Fin n → ℝ) {ν : Fin n → ℝ}
+    (hν : ∀ i, 0 < ν i) (c : Fin d) {θ : ℝ} (hθ : θ ≠ 0)
+    (s : ℝ) (r : Fin n → ℝ) :
+    HasDerivAt
+      (fun t => -s * (r ⬝ᵥ ((multitaskNoisy kp kt alpha (Function.update l c t) lt x τ ν)⁻¹ *ᵥ r)
+        + Real.log (multitaskNoisy kp kt alpha (Function.update l c t) lt x τ ν).det))
+      (-s * (-(((multitaskNoisy kp kt alpha (Function.update l c θ) lt x τ ν)⁻¹ *ᵥ r) ⬝ᵥ
+            (multitaskHparamGrad kp kt alpha (Function.update l c θ) lt x τ (c.val + 1) *ᵥ ((multitaskNoisy kp kt alpha (Function.update l c θ) lt x τ ν)⁻¹ *ᵥ r)))
+        + Matrix.trace ((multitaskNoisy kp kt alpha (Function.update l c θ) lt x τ ν)⁻¹ * multitaskHparamGrad kp kt alpha (Function.update l c θ) lt x τ (c.val + 1)))) θ :=
+  loglik_grad_matrix_posDef (K := fun t => multitaskNoisy kp kt alpha (Function.update l c t) lt x τ ν)
+    (multitask_matrix_grad_length_phys kp kt hk alpha l lt x τ ν c hθ) (multitask_matrix_posDef kp kt ha _ lt x τ hν) s r
+
+/-- … GLS polynomial mean, `P` of full column rank -/
+theorem loglik_grad_multitask_length_phys_poly_mean (kp kt : Kind) (hk : differentiable kp = true) {n d p : ℕ} {alpha : ℝ}
+    (ha : 0 ≤ alpha) (l : Fin d → ℝ) (lt : ℝ) (x : Fin n → Fin d → ℝ) (τ : Fin n → ℝ) {ν : Fin n → ℝ}
+    (hν : ∀ i, 0 < ν i) (c : Fin d) {θ : ℝ} (hθ : θ ≠ 0)
+    (P : Matrix (Fin n) (Fin p) ℝ) (hP : Function.Injective P.mulVec) (s : ℝ) (y : Fin n → ℝ) :
+    HasDerivAt
+      (fun t => -s * (glsResidual P (multitaskNoisy kp kt alpha (Function.update l c t) lt x τ ν) y ⬝ᵥ
+          ((multitaskNoisy kp kt alpha (Function.update l c t) lt x τ ν)⁻¹ *ᵥ glsResidual P (multitaskNoisy kp kt alpha (Function.update l c t) lt x τ ν) y)
+        + Real.log (multitaskNoisy kp kt alpha (Function.update l c t) lt x τ ν).det))
+      (-s * (-(((multitaskNoisy kp kt alpha (Function.update l c θ) lt x τ ν)⁻¹ *ᵥ glsResidual P (multitaskNoisy kp kt alpha (Function.update l c θ) lt x τ ν) y) ⬝ᵥ
+            (multitaskHparamGrad kp kt alpha (Function.update l c θ) lt x τ (c.val + 1) *ᵥ ((multitaskNoisy kp kt alpha (Function.update l c θ) lt x τ ν)⁻¹ *ᵥ
+              glsResidual P (multitaskNoisy kp kt alpha (Function.update l c θ) lt x τ ν) y)))
+        + Matrix.trace ((multitaskNoisy kp kt alpha (Function.update l c θ) lt x τ ν)⁻¹ * multitaskHparamGrad kp kt alpha (Function.update l c θ) lt x τ (c.val + 1)))) θ :=
+  loglik_grad_poly_mean_matrix_posDef (K := fun t => multitaskNoisy kp kt alpha (Function.update l c t) lt x τ ν)
+    (multitask_matrix_grad_length_phys kp kt hk alpha l lt x τ ν c hθ) (multitask_matrix_posDef kp kt ha _ lt x τ hν) P hP s y
+
+/-- **loglik_grad_multitask_length_task**: the task length scale moving, `K'` slice `d + 1`; every `θ ≠ 0`, zero mean -/
+theorem loglik_grad_multitask_length_task (kp kt : Kind) (hk : differentiable kt = true) {n d : ℕ} {alpha : ℝ}
+    (ha : 0 ≤ alpha) (l : Fin d → ℝ) (x : Fin n → Fin d → ℝ) (τ : Fin n → ℝ) {ν : Fin n → ℝ}
+    (hν : ∀ i, 0 < ν i) {θ : ℝ} (hθ : θ ≠ 0)
+    (s : ℝ) (r : Fin n → ℝ) :
+    HasDerivAt
+      (fun t => -s * (r ⬝ᵥ ((multitaskNoisy kp kt alpha l t x τ ν)⁻¹ *ᵥ r)
+        + Real.log (multitaskNoisy kp kt alpha l t x τ ν).det))
+      (-s * (-(((multitaskNoisy kp kt alpha l θ x τ ν)⁻¹ *ᵥ r) ⬝ᵥ
+            (multitaskHparamGrad kp kt alpha l θ x τ (d + 1) *ᵥ ((multitaskNoisy kp kt alpha l θ x τ ν)⁻¹ *ᵥ r)))
+        + Matrix.trace ((multitaskNoisy kp kt alpha l θ x τ ν)⁻¹ * multitaskHparamGrad kp kt alpha l θ x τ (d + 1)))) θ :=
+  loglik_grad_matrix_posDef (K := fun t => multitaskNoisy kp kt alpha l t x τ ν)
+    (multitask_matrix_grad_length_task kp kt hk alpha l x τ ν hθ) (multitask_matrix_posDef kp kt ha l θ x τ hν) s r
+
+/-- … GLS polynomial mean, `P` of full column rank -/
+theorem loglik_grad_multitask_length_task_poly_mean (kp kt : Kind) (hk : differentiable kt = true) {n d p : ℕ} {alpha : ℝ}
+    (ha : 0 ≤ alpha) (l : Fin d → ℝ) (x : Fin n → Fin d → ℝ) (τ : Fin n → ℝ) {ν : Fin n → ℝ}
+    (hν : ∀ i, 0 < ν i) {θ : ℝ} (hθ : θ ≠ 0)
+    (P : Matrix (Fin n) (Fin p) ℝ) (hP : Function.Injective P.mulVec) (s : ℝ) (y : Fin n → ℝ) :
+    HasDerivAt
+      (fun t => -s * (glsResidual P (multitaskNoisy kp kt alpha l t x τ ν) y ⬝ᵥ
+          ((multitaskNoisy kp kt alpha l t x τ ν)⁻¹ *ᵥ glsResidual P (multitaskNoisy kp kt alpha l t x τ ν) y)
+        + Real.log (multitaskNoisy kp kt alpha l t x τ ν).det))
+      (-s * (-(((multitaskNoisy kp kt alpha l θ x τ ν)⁻¹ *ᵥ glsResidual P (multitaskNoisy kp kt alpha l θ x τ ν) y) ⬝ᵥ
+            (multitaskHparamGrad kp kt alpha l θ x τ (d + 1) *ᵥ ((multitaskNoisy kp kt alpha l θ x τ ν)⁻¹ *ᵥ
+              glsResidual P (multitaskNoisy kp kt alpha l θ x τ ν) y)))
+        + Matrix.trace ((multitaskNoisy kp kt alpha l θ x τ ν)⁻¹ * multitaskHparamGrad kp kt alpha l θ x τ (d + 1)))) θ :=
+  loglik_grad_poly_mean_matrix_posDef (K := fun t => multitaskNoisy kp kt alpha l t x τ ν)
+    (multitask_matrix_grad_length_task kp kt hk alpha l x τ ν hθ) (multitask_matrix_posDef kp kt ha l θ x τ hν) P hP s y
+
+/-- **loglik_grad_multitask_nugget**: `K + diag ν + t·I`, `K' = I`; every θ with `ν i + θ > 0`, zero mean -/
+theorem loglik_grad_multitask_nugget (kp kt : Kind) {n d : ℕ} {alpha : ℝ} (ha : 0 ≤ alpha) (l : Fin d → ℝ) (lt : ℝ)
+    (x : Fin n → Fin d → ℝ) (τ : Fin n → ℝ) (ν : Fin n → ℝ) {θ : ℝ} (hν : ∀ i, 0 < ν i + θ)
+    (s : ℝ) (r : Fin n → ℝ) :
+    HasDerivAt
+      (fun t => -s * (r ⬝ᵥ ((multitaskNoisy kp kt alpha l lt x τ (fun a => ν a + t))⁻¹ *ᵥ r)
+        + Real.log (multitaskNoisy kp kt alpha l lt x τ (fun a => ν a + t)).det))
+      (-s * (-(((multitaskNoisy kp kt alpha l lt x τ (fun a => ν a + θ))⁻¹ *ᵥ r) ⬝ᵥ
+            ((1 : Matrix (Fin n) (Fin n) ℝ) *ᵥ ((multitaskNoisy kp kt alpha l lt x τ (fun a => ν a + θ))⁻¹ *ᵥ r)))
+        + Matrix.trace ((multitaskNoisy kp kt alpha l lt x τ (fun a => ν a + θ))⁻¹ * (1 : Matrix (Fin n) (Fin n) ℝ)))) θ :=
+  loglik_grad_matrix_posDef (K := fun t => multitaskNoisy kp kt alpha l lt x τ (fun a => ν a + t))
+    (multitask_matrix_grad_nugget kp kt alpha l lt x τ ν θ).2 (multitask_matrix_posDef kp kt ha l lt x τ (ν := fun a => ν a + θ) hν) s r
+
+/-- … GLS polynomial mean, `P` of full column rank -/
+theorem loglik_grad_multitask_nugget_poly_mean (kp kt : Kind) {n d p : ℕ} {alpha : ℝ} (ha : 0 ≤ alpha) (l : Fin d → ℝ) (lt : ℝ)
+    (x : Fin n → Fin d → ℝ) (τ : Fin n → ℝ) (ν : Fin n → ℝ) {θ : ℝ} (hν : ∀ i, 0 < ν i + θ)
+    (P : Matrix (Fin n) (Fin p) ℝ) (hP : Function.Injective P.mulVec) (s : ℝ) (y : Fin n → ℝ) :
+    HasDerivAt
+      (fun t => -s * (glsResidual P (multitaskNoisy kp kt alpha l lt x τ (fun a => ν a + t)) y ⬝ᵥ
+          ((multitaskNoisy kp kt alpha l lt x τ (fun a => ν a + t))⁻¹ *ᵥ glsResidual P (multitaskNoisy kp kt alpha l lt x τ (fun a => ν a + t)) y)
+        + Real.log (multitaskNoisy kp kt alpha l lt x τ (fun a => ν a + t)).det))
+      (-s * (-(((multitaskNoisy kp kt alpha l lt x τ (fun a => ν a + θ))⁻¹ *ᵥ glsResidual P (multitaskNoisy kp kt alpha l lt x τ (fun a => ν a + θ)) y) ⬝ᵥ
+            ((1 : Matrix (Fin n) (Fin n) ℝ) *ᵥ ((multitaskNoisy kp kt alpha l lt x τ (fun a => ν a + θ))⁻¹ *ᵥ
+              glsResidual P (multitaskNoisy kp kt alpha l lt x τ (fun a => ν a + θ)) y)))
+        + Matrix.trace ((multitaskNoisy kp kt alpha l lt x τ (fun a => ν a + θ))⁻¹ * (1 : Matrix (Fin n) (Fin n) ℝ)))) θ :=
+  loglik_grad_poly_mean_matrix_posDef (K := fun t => multitaskNoisy kp kt alpha l lt x τ (fun a => ν a + t))
+    (multitask_matrix_grad_nugget kp kt alpha l lt x τ ν θ).2 (multitask_matrix_posDef kp kt ha l lt x τ (ν := fun a => ν a + θ) hν) P hP s y
+
+end Compose
 
 /-- one observation, in scalars (the statement that was proved before the general one) -/
 theorem loglik_grad_partial {K : ℝ → ℝ} {K' θ : ℝ} (s y : ℝ) (hK : HasDerivAt K K' θ) (hpos : 0 < K θ) :
